@@ -88,18 +88,28 @@ class CheckResult:
         return f"<{self.label}: {self.status}>"
 
 
+class _ConsList:
+    """the path condition; every query builds a fresh z3 solver from it so that z3 uses its
+    tactic pipeline (nlsat / bit-blasting) rather than the weaker incremental cores."""
+
+    def __init__(self):
+        self.cons = []
+
+    def add(self, *cs):
+        self.cons.extend(cs)
+
+    def assertions(self):
+        return list(self.cons)
+
+
 class PathCtx:
     def __init__(self, prefix: List[bool], max_decisions: int = 400, timeout_ms: int = DEFAULT_TIMEOUT_MS,
                  seed: int = 0, logic: Optional[str] = None):
         self.prefix = list(prefix)
         self.max_decisions = max_decisions
         self.timeout_ms = timeout_ms
-        self.solver = z3.Solver() if logic is None else z3.SolverFor(logic)
-        self.solver.set("timeout", timeout_ms)
-        try:
-            self.solver.set("random_seed", seed)
-        except Exception:
-            pass
+        self.solver = _ConsList()
+        self.seed = seed
         self.taken: List[Tuple[Any, bool, bool]] = []  # (cond, outcome, alternative_feasible)
         self.assumes: List[Any] = []
         self.results: List[CheckResult] = []
@@ -141,15 +151,22 @@ class PathCtx:
         self.solver.add(c)
         self.assumes.append(c)
 
+    def _query(self, *extra, timeout_ms=None):
+        s = z3.Solver()
+        s.set("timeout", timeout_ms or self.timeout_ms)
+        s.add(*self.solver.cons)
+        s.add(*extra)
+        return _timed_check(s), s
+
     def assume_checked(self, cond) -> None:
         """assume + make sure the path is still feasible (else abort the path)."""
         self.assume(cond)
-        r = _timed_check(self.solver)
+        r, _ = self._query()
         if r == "unsat":
             raise PathInfeasible()
 
     def feasible(self) -> str:
-        return _timed_check(self.solver)
+        return self._query()[0]
 
     # -- branching
     def branch(self, cond) -> bool:
@@ -167,8 +184,8 @@ class PathCtx:
             self.taken.append((c, outcome, False))
             return outcome
         STATS["branch_queries"] += 2
-        rt = _timed_check(self.solver, c)
-        rf = _timed_check(self.solver, z3.Not(c))
+        rt, _ = self._query(c)
+        rf, _ = self._query(z3.Not(c))
         if rt == "unknown":
             self.unknown_branches += 1
         if rf == "unknown":
@@ -198,11 +215,7 @@ class PathCtx:
             res = CheckResult(label, "holds", None, detail, self.path_id)
             self.results.append(res)
             return res
-        s = z3.Solver()
-        s.set("timeout", self.timeout_ms)
-        s.add(*self.solver.assertions())
-        s.add(z3.Not(c))
-        r = _timed_check(s)
+        r, s = self._query(z3.Not(c))
         model = None
         if r == "sat":
             model = self.extract_model(s.model())
@@ -218,9 +231,9 @@ class PathCtx:
 
     def fail(self, label: str, detail=None) -> CheckResult:
         """The path itself is the violation (e.g. the real code raised); get a witness."""
-        r = _timed_check(self.solver)
+        r, s = self._query()
         if r == "sat":
-            res = CheckResult(label, "violated", self.extract_model(self.solver.model()), detail, self.path_id)
+            res = CheckResult(label, "violated", self.extract_model(s.model()), detail, self.path_id)
         elif r == "unsat":
             res = CheckResult(label, "holds", None, "path infeasible", self.path_id)
         else:
@@ -235,10 +248,10 @@ class PathCtx:
 
     def witness(self) -> Optional[Dict[str, Any]]:
         """A concrete model of the path condition (for semantics validation)."""
-        r = _timed_check(self.solver)
+        r, s = self._query()
         if r != "sat":
             return None
-        return self.extract_model(self.solver.model())
+        return self.extract_model(s.model())
 
     def extract_model(self, m: z3.ModelRef) -> Dict[str, Any]:
         out = {}
